@@ -510,7 +510,51 @@ func ruleDequeResize(c *Ctx, r *R) {
 			}
 		}
 	}
-	r.ok(copies >= 3 || len(segs) >= 3, "deque.Deque.resize|copies-both-halves", rs.Pos(), "resize must copy the contiguous case and both halves of the wrapped case")
+	// ... or the items are moved one by one in queue order: a loop counting i from 0 below the old length that stores
+	// old[(front + i) mod len(old)] into new[i]
+	elementwise := false
+	for _, di := range deepInstrs(rs, 1) {
+		st, ok := di.in.(*ssa.Store)
+		if !ok {
+			continue
+		}
+		dst, ok := st.Addr.(*ssa.IndexAddr)
+		if !ok {
+			continue
+		}
+		ld, ok := st.Val.(*ssa.UnOp)
+		if !ok || ld.Op != token.MUL {
+			continue
+		}
+		src, ok := ld.X.(*ssa.IndexAddr)
+		if !ok {
+			continue
+		}
+		if f, _, ok := rootField(src.X); !ok || f != "a" {
+			continue
+		}
+		env := provEnv{chain: di.calls}
+		di0 := symOf(dst.Index, env)
+		if di0.op != "iv" || !di0.args[0].isConst(0) {
+			continue
+		}
+		se := symOf(src.Index, env)
+		inner, isMod := se.modLen("a")
+		if !isMod || inner == nil || inner.op != "+" || len(inner.args) != 2 {
+			continue
+		}
+		a, b := inner.args[0], inner.args[1]
+		if !((a.fieldSuffix("front") && b.op == "iv" && b.v == di0.v) || (b.fieldSuffix("front") && a.op == "iv" && a.v == di0.v)) {
+			continue
+		}
+		// the counter runs below the old length
+		for _, g := range guardsOf(st.Block()) {
+			if cf, ok := g.asCmp(); ok && cf.op == token.LSS && cf.x == di0.v && lenCall != nil && resolveVal(cf.y) == ssa.Value(lenCall.(*ssa.Call)) {
+				elementwise = true
+			}
+		}
+	}
+	r.ok(copies >= 3 || len(segs) >= 3 || elementwise, "deque.Deque.resize|copies-both-halves", rs.Pos(), "resize must copy the contiguous case and both halves of the wrapped case")
 	// all copies happen before d.a is replaced and read from the old d.a
 	okCopy := true
 	for _, di := range deepInstrs(rs, 2) {
@@ -602,9 +646,70 @@ func ruleDequeStepDirection(c *Ctx, r *R) {
 func ruleDequeExpandFloor(c *Ctx, r *R) {
 	me := dq(c, "maybeExpand")
 	if me == nil {
-		r.undecided("deque.Deque.maybeExpand|missing", token.NoPos, "anchor not found")
+		// the expansion step written out in the pushes themselves (maybeExpand inlined into its two callers): each push is
+		// judged as its own expander, and the step must come before the push touches the buffer
+		any := false
+		for _, p := range []string{"PushFront", "PushBack"} {
+			if fn := dq(c, p); fn != nil {
+				any = true
+				dequeExpandHost(c, r, fn, "deque.Deque."+p)
+				first := true
+				var resizeAt ssa.Instruction
+				instrs(fn, func(_ *ssa.BasicBlock, _ int, in ssa.Instruction) {
+					if call, ok := in.(*ssa.Call); ok && resizeAt == nil {
+						if cal := staticCallee(&call.Call); cal != nil && fname(cal) == "resize" {
+							resizeAt = call
+						}
+					}
+				})
+				if resizeAt == nil {
+					first = false
+				} else {
+					instrs(fn, func(b *ssa.BasicBlock, i int, in ssa.Instruction) {
+						st, ok := in.(*ssa.Store)
+						if !ok {
+							return
+						}
+						if _, isAlloc := st.Addr.(*ssa.Alloc); isAlloc {
+							return
+						}
+						if (b == resizeAt.Block() && i < idxIn(resizeAt)) || (b != resizeAt.Block() && b.Dominates(resizeAt.Block())) {
+							first = false // the deque is written before room was made
+						}
+					})
+				}
+				r.ok(first, "deque.Deque."+p+"|expand-first", fn.Pos(), p+" must make room (resize when full) before touching the buffer")
+			}
+		}
+		if !any {
+			r.undecided("deque.Deque.maybeExpand|missing", token.NoPos, "anchor not found")
+		}
 		return
 	}
+	dequeExpandHost(c, r, me, "deque.Deque.maybeExpand")
+	for _, p := range []string{"PushFront", "PushBack"} {
+		fn := dq(c, p)
+		if fn == nil {
+			continue
+		}
+		first := false
+		for _, in := range fn.Blocks[0].Instrs {
+			if call, ok := in.(*ssa.Call); ok {
+				if cal := staticCallee(&call.Call); cal != nil && fname(cal) == "maybeExpand" {
+					first = true
+				}
+				break
+			}
+			if _, ok := in.(*ssa.Store); ok {
+				break
+			}
+		}
+		r.ok(first, "deque.Deque."+p+"|expand-first", fn.Pos(), p+" must call maybeExpand before touching the buffer")
+	}
+}
+
+// dequeExpandHost: the function me contains the expansion step.
+func dequeExpandHost(c *Ctx, r *R, me *ssa.Function, key string) {
 	// every resize call in maybeExpand has an argument provably >= 1; and the full test covers the empty buffer:
 	// the resize is reached whenever Len() == len(d.a)
 	n := 0
@@ -701,26 +806,7 @@ func ruleDequeExpandFloor(c *Ctx, r *R) {
 			}
 		}
 	})
-	r.ok(good && n >= 1 && cover, "deque.Deque.maybeExpand|resize-at-least-one", me.Pos(), "maybeExpand must leave len(d.a) > 0: "+why)
-	for _, p := range []string{"PushFront", "PushBack"} {
-		fn := dq(c, p)
-		if fn == nil {
-			continue
-		}
-		first := false
-		for _, in := range fn.Blocks[0].Instrs {
-			if call, ok := in.(*ssa.Call); ok {
-				if cal := staticCallee(&call.Call); cal != nil && fname(cal) == "maybeExpand" {
-					first = true
-				}
-				break
-			}
-			if _, ok := in.(*ssa.Store); ok {
-				break
-			}
-		}
-		r.ok(first, "deque.Deque."+p+"|expand-first", fn.Pos(), p+" must call maybeExpand before touching the buffer")
-	}
+	r.ok(good && n >= 1 && cover, key+"|resize-at-least-one", me.Pos(), "the expansion step must leave len(d.a) > 0: "+why)
 }
 
 func isBuiltinNamed(call *ssa.Call, name string) bool {
